@@ -14,6 +14,7 @@ def run(tier, seed):
     v = Verdict("C04")
     nsched = 6 if tier == "quick" else 40
     maxpts = 60 if tier == "quick" else 400
+    hard = 4 if tier == "quick" else 16       # crash points per operation at which a child process really dies (abort)
     scheds, r = tracecheck.gen_schedules("c04", "crash", nsched, seed, maxlen=36)
     import directed
     scheds = directed.c04_family(tier) + scheds
@@ -24,13 +25,13 @@ def run(tier, seed):
         sp = os.path.join(OUT, "c04_sched_%d.ndjson" % k)
         tp = os.path.join(OUT, "c04_trace_%d.ndjson" % k)
         tracecheck.write_schedules(sp, chunks[k], first_run=1 + 1000 * k)
-        p = common.run_vh(["crash", sp, tp, maxpts], timeout=3400)
+        p = common.run_vh(["crash", sp, tp, maxpts, hard], timeout=3400)
         if p.returncode != 0:
             raise ToolError("vh crash failed: " + p.stderr[-1500:])
         return tp, json.loads(p.stdout.strip().splitlines()[-1])
 
     traces = []
-    tot = {"runs": 0, "crash_points": 0, "skipped": 0}
+    tot = {"runs": 0, "crash_points": 0, "skipped": 0, "hard_kills": 0}
     orders = []
     with concurrent.futures.ThreadPoolExecutor(max_workers=shards) as ex:
         for tp, st in ex.map(one, range(shards)):
@@ -67,7 +68,7 @@ def run(tier, seed):
                    "write, the instance is dropped and reopened, reorg to the highest admissible durable height, three more "
                    "blocks; non-trivial = a run whose crash point lies strictly inside the operation or at its first write",
            "samples": [{"operation": o["op"], "writes": o["writes"][:12], "n_writes": len(o["writes"])} for o in orders[:3]],
-           "crash_points_by_operation": by_during, "runs_validated": runs_ok, "events_validated": validated,
+           "crash_points_by_operation": by_during, "hard_kills": tot["hard_kills"], "runs_validated": runs_ok, "events_validated": validated,
            "skipped_no_admissible_target": tot["skipped"], "histories": len(scheds),
            "write_order_extracted": {"rows_within_key": [list(x) for x in row_order], "tables_in_commit": table_order},
            "tlc_states": states,
@@ -75,7 +76,9 @@ def run(tier, seed):
     rc = v.finish()
     common.write_evidence("C04", tier, seed, "fault_enumeration", cov,
                           ["a completed RocksDB put/delete survives process death and is atomic (WAL); power loss is out of scope",
-                           "the crash is an Err returned by the hook at the armed write followed by dropping the instance (quick tier)",
+                           "most crash points are an Err returned by the hook at the armed write followed by dropping the instance (RocksDB is closed "
+                           "in an orderly way); at a few points per operation (hard_kills) a child process aborts inside the write and the directory "
+                           "is reopened as the kernel left it",
                            "quick tier samples at most 60 crash points per operation, evenly spaced, always including the first and last"],
                           time.time() - t0, len(v.new))
     return rc
